@@ -607,3 +607,193 @@ with FieldNameOK : list str -> bool -> field_name -> Prop :=
 | FN_Ident vs io i : FieldNameOK vs io (FnIdent i)
 | FN_String vs io s sp : FieldNameOK vs io (FnString s sp)
 | FN_Expr vs io e sp : StaticOK vs io e -> FieldNameOK vs io (FnExpr e sp).
+
+(* ======================================================================
+   Closedness of the lowered program, and the run-time side.
+
+   [Closed L io i]: every variable the IR [i] mentions is bound by an enclosing
+   IR binder or belongs to [L]; self / $ / super occur only below an object (or
+   [io] holds).  Scopes are those the evaluator builds: a Local / Func / Object
+   frame holds all the names of its group; comprehension clauses add their
+   variable for what follows; a computed field name lives in the frame of the
+   object expression, not in the object's.
+   ====================================================================== *)
+Inductive Closed : list str -> bool -> ir -> Prop :=
+| CL_Null L io : Closed L io INull
+| CL_Bool L io b : Closed L io (IBool b)
+| CL_Number L io n sp : Closed L io (INumber n sp)
+| CL_String L io s : Closed L io (IString s)
+| CL_Object L io locals asserts fields :
+    Forall (fun l => Closed (map fst locals ++ L) true (snd l)) locals ->
+    Forall (ClosedAssert (map fst locals ++ L) true) asserts ->
+    Forall (ClosedField L io (map fst locals ++ L)) fields ->
+    Closed L io (IObject (negb io) locals asserts fields)
+| CL_ObjectComp L io L' locals fname fsp plus fval specs :
+    ClosedSpecs L io specs L' ->
+    Forall (fun l => Closed (map fst locals ++ L') true (snd l)) locals ->
+    Closed L' io fname ->
+    Closed (map fst locals ++ L') true fval ->
+    Closed L io (IObjectComp (negb io) locals fname fsp plus fval specs)
+| CL_Array L io items : Forall (Closed L io) items -> Closed L io (IArray items)
+| CL_ArrayComp L io L' value specs :
+    ClosedSpecs L io specs L' -> Closed L' io value -> Closed L io (IArrayComp value specs)
+| CL_Field L io o n sp : Closed L io o -> Closed L io (IField o n sp)
+| CL_Index L io o i sp : Closed L io o -> Closed L io i -> Closed L io (IIndex o i sp)
+| CL_Slice L io a x y z sp :
+    Closed L io a ->
+    (forall v, x = Some v -> Closed L io v) ->
+    (forall v, y = Some v -> Closed L io v) ->
+    (forall v, z = Some v -> Closed L io v) ->
+    Closed L io (ISlice a x y z sp)
+| CL_SuperField L ssp n sp : Closed L true (ISuperField ssp n sp)
+| CL_SuperIndex L ssp i sp : Closed L true i -> Closed L true (ISuperIndex ssp i sp)
+| CL_Call L io c pos named ts sp :
+    Closed L io c -> Forall (Closed L io) pos -> Forall (fun a => Closed L io (snd a)) named ->
+    Closed L io (ICall c pos named ts sp)
+| CL_Var L io n sp : In n L -> Closed L io (IVar n sp)
+| CL_SelfObj L : Closed L true ISelfObj
+| CL_TopObj L : Closed L true ITopObj
+| CL_Local L io bs inner :
+    Forall (fun b => Closed (map fst bs ++ L) io (snd b)) bs ->
+    Closed (map fst bs ++ L) io inner ->
+    Closed L io (ILocal bs inner)
+| CL_If L io c csp t e :
+    Closed L io c -> Closed L io t -> (forall v, e = Some v -> Closed L io v) ->
+    Closed L io (IIf c csp t e)
+| CL_Binary L io op l r sp : Closed L io l -> Closed L io r -> Closed L io (IBinary op l r sp)
+| CL_Unary L io op r sp : Closed L io r -> Closed L io (IUnary op r sp)
+| CL_InSuper L l sp : Closed L true l -> Closed L true (IInSuper l sp)
+| CL_IdentityFunc L io : Closed L io IIdentityFunc
+| CL_Func L io ps body :
+    Forall (fun p => forall d, snd p = Some d -> Closed (map fst ps ++ L) io d) ps ->
+    Closed (map fst ps ++ L) io body ->
+    Closed L io (IFunc ps body)
+| CL_Error L io m sp : Closed L io m -> Closed L io (IError m sp)
+| CL_Assert L io a inner : ClosedAssert L io a -> Closed L io inner -> Closed L io (IAssert a inner)
+| CL_Import L io p sp : Closed L io (IImport p sp)
+| CL_ImportStr L io p sp : Closed L io (IImportStr p sp)
+| CL_ImportBin L io p sp : Closed L io (IImportBin p sp)
+| CL_OtherError L io m : Closed L io (IOtherError m)
+
+with ClosedAssert : list str -> bool -> ir_assert -> Prop :=
+| CA_Intro L io sp c csp m :
+    Closed L io c -> (forall v, m = Some v -> Closed L io v) ->
+    ClosedAssert L io (MkIrAssert sp c csp m)
+
+(* [ClosedField outer io inner f] *)
+with ClosedField : list str -> bool -> list str -> ir_field -> Prop :=
+| CF_Fix L io inner s nsp plus vis v :
+    Closed inner true v -> ClosedField L io inner (MkIrField (IFix s) nsp plus vis v)
+| CF_Dyn L io inner e nsp plus vis v :
+    Closed L io e -> Closed inner true v -> ClosedField L io inner (MkIrField (IDyn e) nsp plus vis v)
+
+with ClosedSpecs : list str -> bool -> list ir_spec -> list str -> Prop :=
+| CS_Nil L io : ClosedSpecs L io [] L
+| CS_For L io v e sp rest out :
+    Closed L io e -> ClosedSpecs (v :: L) io rest out -> ClosedSpecs L io (ISFor v e sp :: rest) out
+| CS_If L io e sp rest out :
+    Closed L io e -> ClosedSpecs L io rest out -> ClosedSpecs L io (ISIf e sp :: rest) out.
+
+(* ---- run-time environments (program/data.rs ThunkEnv / ThunkEnvData) and
+   the lookups that assume analysis succeeded ---- *)
+Inductive rt_env := RtEnv (parent : option rt_env) (rt_vars : list str) (rt_object : bool).
+
+(* ThunkEnvData::new(parent): no variables, the object of the parent *)
+Definition rt_new (parent : rt_env) : rt_env :=
+  match parent with RtEnv _ _ o => RtEnv (Some parent) [] o end.
+Definition rt_set_vars (ns : list str) (r : rt_env) : rt_env :=
+  match r with RtEnv p vs o => RtEnv p (ns ++ vs) o end.
+Definition rt_set_object (r : rt_env) : rt_env :=
+  match r with RtEnv p vs _ => RtEnv p vs true end.
+Definition rt_frame (ns : list str) (parent : rt_env) : rt_env := rt_set_vars ns (rt_new parent).
+
+(* ThunkEnv::get_var: this frame, then the parents; panics when the name is nowhere *)
+Fixpoint rt_get_var (name : str) (r : rt_env) : outcome unit unit :=
+  match r with
+  | RtEnv p vs _ =>
+      if existsb (str_eqb name) vs then Ok tt
+      else match p with
+           | Some q => rt_get_var name q
+           | None => Panic "data.rs:ThunkEnv::get_var:variable not found"
+           end
+  end.
+
+(* ThunkEnv::get_object / get_top_object: [data.object.as_ref().unwrap()] *)
+Definition rt_get_object (r : rt_env) : outcome unit unit :=
+  match r with
+  | RtEnv _ _ true => Ok tt
+  | RtEnv _ _ false => Panic "data.rs:ThunkEnv::get_object:unwrap on None"
+  end.
+
+(* [walk r i]: visit EVERY sub-expression of [i] (a superset of what any
+   evaluation reaches) in the environment the evaluator would build for it,
+   performing the lookup each Var / self / $ / super performs.  This is the
+   environment discipline of eval/mod.rs and data.rs (frames for Local, calls,
+   object layers with their locals, comprehension variables), not the
+   evaluator: values, laziness and errors are abstracted away. *)
+Definition wlist {A : Type} (f : A -> outcome unit unit) : list A -> outcome unit unit :=
+  fix go (l : list A) : outcome unit unit :=
+    match l with [] => Ok tt | x :: t => do _ <- f x; go t end.
+Definition wopt {A : Type} (f : A -> outcome unit unit) (o : option A) : outcome unit unit :=
+  match o with None => Ok tt | Some x => f x end.
+
+Section WithWalk.
+  Variable w : rt_env -> ir -> outcome unit unit.
+  Definition walk_assert (r : rt_env) (a : ir_assert) : outcome unit unit :=
+    match a with MkIrAssert _ c _ m => do _ <- w r c; wopt (w r) m end.
+  Definition walk_field (outer inner : rt_env) (f : ir_field) : outcome unit unit :=
+    match f with
+    | MkIrField (IFix _) _ _ _ v => w inner v
+    | MkIrField (IDyn e) _ _ _ v => do _ <- w outer e; w inner v
+    end.
+  (* clauses, then the continuation in the environment they leave *)
+  Definition walk_specs (k : rt_env -> outcome unit unit) : list ir_spec -> rt_env -> outcome unit unit :=
+    fix go (cs : list ir_spec) (r : rt_env) : outcome unit unit :=
+      match cs with
+      | [] => k r
+      | ISFor v e _ :: rest => do _ <- w r e; go rest (rt_frame [v] r)
+      | ISIf e _ :: rest => do _ <- w r e; go rest r
+      end.
+End WithWalk.
+
+Fixpoint walk (r : rt_env) (i : ir) {struct i} : outcome unit unit :=
+  match i with
+  | INull | IBool _ | INumber _ _ | IString _ | IIdentityFunc | IImport _ _ | IImportStr _ _
+  | IImportBin _ _ | IOtherError _ => Ok tt
+  | IObject _ locals asserts fields =>
+      let inner := rt_set_object (rt_frame (map fst locals) r) in
+      do _ <- wlist (fun l => walk inner (snd l)) locals;
+      do _ <- wlist (walk_assert walk inner) asserts;
+      wlist (walk_field walk r inner) fields
+  | IObjectComp _ locals fname _ _ fval specs =>
+      walk_specs walk (fun r' =>
+        let inner := rt_set_object (rt_frame (map fst locals) r') in
+        do _ <- wlist (fun l => walk inner (snd l)) locals;
+        do _ <- walk r' fname;
+        walk inner fval) specs r
+  | IArray items => wlist (walk r) items
+  | IArrayComp value specs => walk_specs walk (fun r' => walk r' value) specs r
+  | IField o _ _ => walk r o
+  | IIndex o x _ => do _ <- walk r o; walk r x
+  | ISlice a x y z _ =>
+      do _ <- walk r a; do _ <- wopt (walk r) x; do _ <- wopt (walk r) y; wopt (walk r) z
+  | ISuperField _ _ _ => rt_get_object r
+  | ISuperIndex _ x _ => do _ <- rt_get_object r; walk r x
+  | ICall c pos named _ _ =>
+      do _ <- walk r c; do _ <- wlist (walk r) pos; wlist (fun a => walk r (snd a)) named
+  | IVar n _ => rt_get_var n r
+  | ISelfObj => rt_get_object r
+  | ITopObj => rt_get_object r
+  | ILocal bs inner =>
+      let r' := rt_frame (map fst bs) r in
+      do _ <- wlist (fun b => walk r' (snd b)) bs; walk r' inner
+  | IIf c _ t e => do _ <- walk r c; do _ <- walk r t; wopt (walk r) e
+  | IBinary _ l x _ => do _ <- walk r l; walk r x
+  | IUnary _ x _ => walk r x
+  | IInSuper l _ => do _ <- rt_get_object r; walk r l
+  | IFunc ps body =>
+      let r' := rt_frame (map fst ps) r in
+      do _ <- wlist (fun p => wopt (walk r') (snd p)) ps; walk r' body
+  | IError m _ => walk r m
+  | IAssert a inner => do _ <- walk_assert walk r a; walk r inner
+  end.
